@@ -4,9 +4,8 @@
     pipeline that tests `if not diff` names a file whose content that step changed.
 
     What is assumed (explicit premises of the closed statements, all tested by harness/c03.py):
-      - [Hbase]  the old side of the pipeline's diff is the file's own text.  Model/Run.v's [diff_base] still is the
-                 FromTrees form ([code k t] for libcst); with the libcst contract code(parse b) = b, or once Run.v is
-                 indexed by Tables.diff_source = FromFileText, this is definitional;
+      - [Hsrc]   the table value t_diff = diff_source extracted from LibcstTransformerPipeline.apply is FromFileText:
+                 the old side of every pipeline's diff is the file's own text (Run.v's [diff_base] is indexed by it);
       - [Hdiff]  the diff oracle has the round trip on clean texts (proved for diff.py's create_diff over ANY matcher
                  with the two matcher contracts: [real_diff_roundtrip] below) and [Hnil] diff x x = "";
       - [HT]     transformers do not introduce exotic line boundaries;
@@ -95,7 +94,10 @@ Section RunDiff.
 
   Hypothesis Hdry : dry_run cfg = false.
   Hypothesis Hguard : nochange_guarded tb = true.
-  Hypothesis Hbase : forall K b t, parse (cpipe K) b = Some t -> diff_base tree code (cpipe K) b t = b.
+  (** what LibcstTransformerPipeline.apply diffs against, as extracted from the source: the file's own text *)
+  Hypothesis Hsrc : t_diff tb = FromFileText.
+  Lemma Hbase K b t : parse (cpipe K) b = Some t -> diff_base tb tree code (cpipe K) b t = b.
+  Proof. intros _. unfold diff_base. rewrite Hsrc. reflexivity. Qed.
   Hypothesis Hdiff : forall x y, clean x -> clean y -> apply_udiff (diff x y) x = Some (norm_nl y).
   Hypothesis Hnil : forall x, diff x x = [].
   Hypothesis HT : forall K b t fi t' chs ds,
